@@ -4,12 +4,12 @@ import json, glob, os, re
 V = os.path.dirname(os.path.dirname(os.path.abspath(__file__)))
 TEXT = '''### 8.6 Behaviour-preserving refactorings: no alarm on code where the property holds
 
-The second requirement on the checks - silence on correct code - was tested the same way as detection: six sub-agents, each given one area of
-the library and a scratch worktree, produced eighteen refactorings that keep every result bit-identical (each with its own differential test of
-10^8..10^10 comparisons against a frozen copy of the original; the repository suite passes with each).  They are archived under
-`refactorings/<name>/` and `refcheck.sh` re-runs them: a `VIOLATION` line or exit 1 is a false alarm, exit 2 (inconclusive) is acceptable only
-where the meta data documents why.  The first run of the then-current checks gave **one false alarm** and many inconclusive answers; what
-changed:
+The second requirement on the checks - silence on correct code - was tested the same way as detection: twelve sub-agents (two batches of six),
+each given one area of the library and a scratch worktree, produced thirty-six refactorings that keep every result bit-identical (each with
+its own differential test of 10^6..10^10 comparisons against a frozen copy of the original, the OpenMP ones also under ThreadSanitizer; the
+repository suite passes with each).  They are archived under `refactorings/<name>/` and `refcheck.sh` re-runs them: a `VIOLATION` line or
+exit 1 is a false alarm, exit 2 (inconclusive) is acceptable only where the meta data documents why.  The first runs of the then-current
+checks gave **three false alarms** (one in C10, two in C12) and many inconclusive answers; what changed:
 
 * **False alarm (C10, `R1-r3`)**: `inv` rewritten on plain integers with the Euclid loop unrolled by two.  The obligation `inv/entry` demanded the
   textbook loop state (0, p, 1, can(a)) and reported its absence as a violation.  All *structural* expectations were audited (C09: number of
@@ -22,6 +22,14 @@ changed:
   of the remainders (trusted), so an exit that returns the coefficient paired with the last non-zero remainder returns the inverse.  The same
   template idea decides `exp` loops of other shapes (accumulator, base, remaining exponent = a state word or E >> counter).  In the thorough
   tier the structure-independent check runs *in addition* to the specialised one.
+* **False alarms (C12, `R10-r1`, `R10-r2`)**: one parallel region with two work-shared loops separated by the loop barrier, and a region that
+  splits its rows by `omp_get_thread_num()`.  The race model executed the outlined function for ONE symbolic iteration and merged everything it
+  touched, so accesses on different sides of a barrier were compared.  Regions that contain more than one worksharing loop, a barrier, a
+  `single` or a thread-number query are now analysed with a *concrete team*: the region runs once per member of a team of T threads (T = the
+  requested size and 2, 3) with the static schedule the runtime would assign, the footprints are cut at barriers, and any two members must be
+  disjoint (up to read/read) in every phase; simple regions keep the symbolic-iteration model (any schedule, any team size).  The sequential
+  semantics used by the other checks got the same faithful team for hand-partitioned regions (a team of one would run only thread 0's share).
+  A `nowait` planted on the first loop of `R10-r1` is reported as a race between members 0 and 1 in phase 0.
 * **Bit tricks the integer encoding could only over-approximate** (`R4-r2`: carry/borrow as msb of (a&b)|((a|b)&~s), selection by `blendv`):
   a bit field of and/or/xor/not is the and/or/xor/not of the bit fields, and the top bit of a word is a comparison, so sign tests and single-bit
   extracts of bitwise combinations are now encoded *exactly*; where approximation remains, a `sat` answer is no longer final: the portfolio
@@ -37,8 +45,15 @@ changed:
   (mult_*_72/_128 -> (high, low) with high*2^64 + low = a*b, plain 64-bit adds of bounded high words, reduce_*).
 * **Interpreter gaps**: `blendv`, `movmsk`, `*.with.overflow`, symbolic `ctlz/cttz`, `switch` on a symbolic value, i128 loads/stores,
   pointer differences after `ptrtoint`, `load atomic`, `__cxa_guard_*`, `mpz_size/getlimbn/fdiv_ui` with the `_mp_size` field kept in the
-  struct, `std::to_string`, offsets that are symbolic terms but fixed by the path condition; builds are serialised by a file lock (two checks
-  started at once on a tree nobody had built yet used to delete each other's build directory).
+  struct, `std::to_string`, offsets that are symbolic terms but fixed by the path condition, vector `umin/umax`; PTX with named registers,
+  `setp.<cmp>`, `selp`, `mul.wide`, logic/shift/`cvt`, guarded flag updates, and a general patcher that doubles the percent sign of literal registers in asm statements with operands
+  (second batch, CUDA header); builds are serialised by a file lock (two checks started at once on a tree nobody had built yet used to delete
+  each other's build directory).
+
+Three refactorings remain inconclusive for one obligation each and say so (exit 2, never an alarm): the schoolbook cubic product with lazy
+reduction (`R5-r2`: the contract of its core is conjectured correctly by the fit but not proved within the budget by z3, z3 5.1 or cvc5), the
+bit-index `exp` loop (`R1-r2`: every counter value is a separate inductive step; 36 of 64 are proved before the budget ends) and the dedicated
+CUDA squaring on the pre-Volta path (`R9-r2`).
 
 Outcome (`./refcheck.sh`, quick tier, last run recorded in `refactorings/results.txt`):
 
